@@ -38,6 +38,19 @@ pub enum Solver<'a> {
 }
 
 pub fn make_solver<'a>(af: &'a AAFramework<usize>, sem: &str, enc: &str) -> Solver<'a> {
+    if enc == "new" {
+        // the convenience constructors: default SAT solver and default encoder (no recording possible)
+        return match sem {
+            "GR" => Solver::Gr(GroundedSemanticsSolver::new(af)),
+            "CO" => Solver::Co(CompleteSemanticsSolver::new(af)),
+            "PR" => Solver::Pr(PreferredSemanticsSolver::new(af)),
+            "ST" => Solver::St(StableSemanticsSolver::new(af)),
+            "SST" => Solver::Sst(SemiStableSemanticsSolver::new(af)),
+            "STG" => Solver::Stg(StageSemanticsSolver::new(af)),
+            "ID" => Solver::Id(IdealSemanticsSolver::new(af)),
+            _ => panic!("unknown semantics {}", sem),
+        };
+    }
     let f = rec::factory();
     match sem {
         "GR" => Solver::Gr(GroundedSemanticsSolver::new(af)),
